@@ -219,7 +219,7 @@ func c08Result(cx *explore.Ctx, q run.Query, r run.Result) {
 			// never the attribute being edited itself (unless it contains a nested declaration that fits)
 			selfOnly := true
 			for _, t := range matches {
-				if t.RangePtr == nil || !(t.RangePtr.Start.Byte <= q.Pos.Byte && q.Pos.Byte <= t.RangePtr.End.Byte && t.RangePtr.Start.Byte >= attr.SrcRange.Start.Byte && t.RangePtr.End.Byte <= attr.SrcRange.End.Byte) {
+				if t.RangePtr == nil || t.RangePtr.Filename != cx.Case.File || !(t.RangePtr.Start.Byte <= q.Pos.Byte && q.Pos.Byte <= t.RangePtr.End.Byte && t.RangePtr.Start.Byte >= attr.SrcRange.Start.Byte && t.RangePtr.End.Byte <= attr.SrcRange.End.Byte) {
 					selfOnly = false
 				}
 			}
